@@ -65,13 +65,19 @@ TEMPLATES = {
     'M1l_B':  ('M', 'B', ('l',), {'l': {_W: 0.5, _E: 1.75}}, 316.0, 106000.0),
     'Mgl1_A': ('M', 'A', ('g', 'l'), {'l': {_W: 1.5, _E: 2.25}}, 330.0, 107000.0),
     'Me_A':   ('M', 'A', ('g', 'l'), {}, 340.0, 108000.0),
+    # package C = (Methanol, Water, Ethanol); streams that carry Methanol (absent from package B)
+    'Sl_C':   ('S', 'C', ('l',), {'l': {_W: 1.0, _E: 2.0}}, 300.0, 101325.0),
+    'Mgl_C':  ('M', 'C', ('g', 'l'), {'g': {_E: 2.0}, 'l': {_W: 1.0, _E: 0.5}}, 350.0, 101000.0),
+    'Sl_Am':  ('S', 'A', ('l',), {'l': {_W: 1.0, 'Methanol': 4.0}}, 301.0, 101400.0),
+    'Mgl_Cm': ('M', 'C', ('g', 'l'), {'g': {'Methanol': 0.5}, 'l': {_W: 1.0, _E: 0.5}}, 351.0, 101500.0),
 }
 
 _TH = {}
 _CAS = {}
+_CUSTOM = {'C': ('Methanol', 'Water', 'Ethanol')}      # same chemicals as A, Ethanol at an index >= len(B)
 def _thermo(pkg):
     if pkg not in _TH:
-        _TH[pkg] = fx.thermo(pkg)
+        _TH[pkg] = fx.custom_thermo(_CUSTOM[pkg]) if pkg in _CUSTOM else fx.thermo(pkg)
         for c in _TH[pkg].chemicals: _CAS[c.ID] = c.CAS
     return _TH[pkg]
 
@@ -216,7 +222,7 @@ class C13(System):
                 try: f()
                 except Exception: pass
     def reset_globals(self):
-        fx.reset_globals(_thermo('A'), _thermo('B'))
+        fx.reset_globals(_thermo('A'), _thermo('B'), _thermo('C'))
         try:
             fx.tmo().Stream.registry.clear()
             fx.tmo().Stream.ticket_numbers.clear()      # process-global autonumbering of IDs
@@ -254,7 +260,7 @@ class C13(System):
             order = tuple(tuple(r.dct) for r in data.rows) if hasattr(data, 'rows') else tuple(data.dct)   # sparse dict INSERTION order
             out.append((d, ids.setdefault(id(x._imol), len(ids)), getattr(x, '_price', None), x._ID, order))
         # the packages' index caches are written by every cross-package copy and read by the next one
-        caches = tuple(tuple((repr(k), repr(v)) for k, v in _thermo(pk).chemicals._index_cache.items()) for pk in ('A', 'B'))
+        caches = tuple(tuple((repr(k), repr(v)) for k, v in _thermo(pk).chemicals._index_cache.items()) for pk in ('A', 'B', 'C'))
         return (tuple(out), st.m.key(), min(st.nsteps, self.pickle_depth + 1), caches)
 
     # ---- actions -------------------------------------------------------------------------------------------------
@@ -264,6 +270,8 @@ class C13(System):
         for j in (0, 1):
             for op in ('copy', 'proxy', 'flow_proxy'):
                 if op in self.ops: acts.append((op, 2, j))
+            if 'copy_thermo' in self.ops:
+                for pk in ('A', 'B', 'C'): acts.append(('copy_thermo', 2, j, pk))
         if 'copy_like' in self.ops:
             for i in live:
                 for j in live:
@@ -377,6 +385,46 @@ class C13(System):
                 if documented and isinstance(e, documented): raise
                 raise Violation('unexpected-exception', f'{a!r} on streams {st.names} ({ {k: okey(v) for k, v in before.items()} }) raised {type(e).__name__}: {e}',
                                 match=dict(op=op, exc=type(e).__name__, stage='call', **match0))
+
+        if op == 'copy_thermo':
+            # x = y.copy(thermo=other package): same flows by CAS, phases, T, P on the other package, independent of y;
+            # a chemical that carries flow and is absent from the target package must be refused (as HEAD does: UndefinedChemicalAlias)
+            _, d, j, pk = a
+            sj = m.slots[j]; ij = m.idx[sj['I']]
+            th = _thermo(pk)
+            have = {c.CAS for c in th.chemicals}
+            src = before[j]
+            missing = sorted({c for p in src[1] for c in src[2][p]} - have)
+            match0 = dict(src=klass(m, j), same_pkg=sj['pkg'] == pk, larger=len(have) > len(_thermo(sj['pkg']).chemicals.IDs), missing=bool(missing))
+            tmo_exc = fx.tmo().exceptions.UndefinedChemicalAlias
+            try:
+                new = X[j].copy(thermo=th)
+            except tmo_exc as e:
+                if not missing:
+                    raise Violation('unexpected-exception', f'{a!r} on streams {st.names}: every chemical with flow is in the target package, yet {type(e).__name__}: {e}',
+                                    match=dict(op=op, exc=type(e).__name__, stage='call', **match0))
+                self._compare(st, op, a, {j: 'source'}, dict(match0, rejected=True), before)
+                raise Rejected('copy_thermo:UndefinedChemicalAlias', cut=False)
+            except Exception as e:
+                raise Violation('unexpected-exception', f'{a!r} on streams {st.names} raised {type(e).__name__}: {e}', match=dict(op=op, exc=type(e).__name__, stage='call', **match0))
+            if missing:
+                raise Violation('flow-vanished', f'{a!r} on streams {st.names}: source {okey(src)} carries {missing}, which package {pk} lacks; copy returned {okey(observe(new))}',
+                                match=dict(op=op, **match0))
+            if new.chemicals is not th.chemicals:
+                raise Violation('copy-differs', f'{a!r}: the copy is not on the requested package', match=dict(op=op, what='package', role='target', **match0))
+            X[d] = new
+            I, TP, F = m.fresh(), m.fresh(), m.fresh()
+            m.tps[TP] = list(m.tps[sj['TP']])
+            Ph = None
+            if ij['Ph'] is not None:
+                Ph = m.fresh(); m.phs[Ph] = m.phs[ij['Ph']]
+            m.flows[F] = _copy.deepcopy(m.flows[ij['F']])
+            m.idx[I] = dict(F=F, Ph=Ph, phases=ij['phases'])
+            m.slots[d] = dict(kind=sj['kind'], pkg=pk, I=I, TP=TP)
+            self._compare(st, 'copy', a, {d: 'target', j: 'source'}, dict(match0, thermo=True), before)
+            st.nontriv = sj['pkg'] != pk
+            st.nsteps += 1
+            return (op, match0['src'], sj['pkg'] + '>' + pk)
 
         if op in ('copy', 'proxy', 'flow_proxy'):
             _, d, j = a
@@ -842,7 +890,7 @@ class PickleGrid(System):
     def outcome(self, st, a, obs): return repr(obs)[:200]
 
 
-_ALL = tuple(TEMPLATES)
+_ALL = tuple(t for t in TEMPLATES if t not in ('Sl_C', 'Mgl_C', 'Sl_Am', 'Mgl_Cm'))
 _CORE = ('Sl_A', 'Sg_A', 'Sl_B', 'Mgl_A', 'M1l_A')
 _ALLOPS = ('copy', 'proxy', 'flow_proxy', 'copy_like', 'link', 'unlink', 'mutate', 'pickle')
 
@@ -850,6 +898,9 @@ SYSTEMS = [
     # kind x kind x package matrix of copy / copy_like (target = stream 0, source = stream 1), followed by mutations (independence)
     # cross-package copies after the source's flow dict was refilled in another order (the packages' index caches are state)
     C13('c13.xpkg', ('Sl_A', 'Sl_B', 'Mgl_A', 'Mgl_B'), 3, 5, ops=('copy_like', 'reorder', 'mutate_flow', 'copy'), tcap_t=60),
+    # copy(thermo=other package) onto smaller / larger / re-ordered packages, then mutations (independence)
+    C13('c13.copythermo', ('Sl_A', 'Mgl_A', 'Sl_B', 'Mgl_B', 'Sl_C', 'Mgl_C', 'Sl_Am', 'Mgl_Cm', 'M1l_A', 'MLl_A'), 2, 3,
+        ops=('copy_thermo', 'mutate_flow', 'reorder'), tcap_t=120),
     C13('c13.copylike', _ALL, 2, 3, ops=('copy', 'copy_like', 'mutate', 'reorder'), copy_like_pairs={(0, 1), (1, 0), (2, 0), (2, 1), (0, 2), (1, 2)}, tcap_t=400),
     # links / proxies / unlink / mutation / pickle, all ordered pairs of five templates
     C13('c13.share', _CORE, 2, 3, ops=_ALLOPS, pickle_depth=1, tcap_t=500, views=True),
